@@ -192,33 +192,41 @@ func runC20(c *eng.Ctx) {
 			// the skip condition, decided on the graph: (1) SkipDir is reachable only through a test every alternative
 			// of which is `hidden` or `excluded` (one `||` condition or separate ifs); (2) assuming a directory that is
 			// hidden, respectively excluded, every path returns SkipDir
-			isHid := func(x ast.Expr) bool { return isHiddenTest(info, x) }
-			isExc := func(x ast.Expr) bool {
+			// the base name of the visited entry, possibly held in a local
+			isName := func(x ast.Expr) bool { return isCallNamed(info, resolveLocal(info, lit.Lit.Body, x), "Name") }
+			isHid := func(x ast.Expr) bool {
 				cl, isC := ast.Unparen(x).(*ast.CallExpr)
-				return isC && eng.IsPkgFunc(eng.CalleeOf(info, cl), "slices", "Contains") && len(cl.Args) == 2 && eng.SelObj(info, cl.Args[0]) == excl && isCallNamed(info, cl.Args[1], "Name")
-			}
-			skipEdge := func(e *eng.GEdge) bool {
-				ds := g.EdgeDisjuncts(e)
-				if len(ds) == 0 {
+				if !isC || !eng.IsPkgFunc(eng.CalleeOf(info, cl), "strings", "HasPrefix") || len(cl.Args) != 2 {
 					return false
 				}
-				for _, d := range ds {
-					if !d.Pos || d.Y != nil || !(isHid(d.X) || isExc(d.X)) {
-						return false
-					}
-				}
-				return true
+				s, isS := eng.ConstStr(info, cl.Args[1])
+				return isS && s == "." && isName(cl.Args[0])
+			}
+			isExc := func(x ast.Expr) bool {
+				cl, isC := ast.Unparen(x).(*ast.CallExpr)
+				return isC && eng.IsPkgFunc(eng.CalleeOf(info, cl), "slices", "Contains") && len(cl.Args) == 2 && eng.SelObj(info, cl.Args[0]) == excl && isName(cl.Args[1])
 			}
 			isSkipRet := func(n *eng.GNode) bool {
 				r, isR := n.Node.(*ast.ReturnStmt)
 				return isR && len(r.Results) == 1 && eng.SelObj(info, r.Results[0]) == skipDir
 			}
-			condOK := nskip > 0
-			for _, n := range g.Nodes {
-				if isSkipRet(n) && !g.OnlyVia(n, nil, skipEdge) {
-					condOK = false
+			// decided per scenario: a directory that is hidden (or excluded) is always skipped, one that is neither is
+			// never skipped; h, x: +1 assumed true, -1 assumed false, 0 unknown
+			scenario := func(h, x int) func(eng.Fact) bool {
+				return func(fc eng.Fact) bool {
+					if fc.Y != nil {
+						return false
+					}
+					if isHid(fc.X) && h != 0 {
+						return (h > 0) == fc.Pos
+					}
+					if isExc(fc.X) && x != 0 {
+						return (x > 0) == fc.Pos
+					}
+					return false
 				}
 			}
+			condOK := nskip > 0
 			var dirEdges []*eng.GEdge
 			for _, n := range g.Nodes {
 				for _, e := range n.Succ {
@@ -230,11 +238,16 @@ func runC20(c *eng.Ctx) {
 			if len(dirEdges) == 0 {
 				condOK = false
 			}
-			for _, which := range []func(ast.Expr) bool{isHid, isExc} {
-				which := which
-				inf := g.Infeasible(func(fc eng.Fact) bool { return fc.Pos && fc.Y == nil && which(fc.X) })
-				for _, e := range dirEdges {
-					if g.MustPassToExit(eng.Query{From: []*eng.GNode{e.To}, AvoidEdge: inf}, isSkipRet) != nil {
+			for _, e := range dirEdges {
+				for _, sc := range [][2]int{{1, 0}, {0, 1}} {
+					a := scenario(sc[0], sc[1])
+					if g.MustPassToExit(eng.Query{From: []*eng.GNode{e.To}, Assume: a, AvoidEdge: g.Infeasible(a)}, isSkipRet) != nil {
+						condOK = false
+					}
+				}
+				a := scenario(-1, -1)
+				for n := range g.Reach(eng.Query{From: []*eng.GNode{e.To}, Assume: a, AvoidEdge: g.Infeasible(a)}) {
+					if isSkipRet(n) {
 						condOK = false
 					}
 				}
